@@ -81,6 +81,11 @@ func GenC04(seed uint64, i int) *world.Case {
 	gs := seedFor(seed, "C04-group", g)
 	gr := gen.New(gs)
 	sp := gen.Spec(gr, gen.SpecOpts{MaxOps: 2 + g%6, Tag: "a", NoWeak: true, NoPragmas: true, Small: g%4 == 0})
+	if g%8 == 5 {
+		// The codec path that only the cluster executor takes: one encoded stream
+		// of shrinking batches pulled through Filter/Flatmap (default vector size).
+		sp = gen.StreamConsumer(gr, nil, "a", 0)
+	}
 	s := seedFor(seed, "C04", i)
 	r := gen.New(s)
 	cfg, sp2 := c04Strategy(r, k, sp)
